@@ -923,3 +923,50 @@ func (m *Models) afterBlock(w *World) {}
 func (o *Order) String() string {
 	return fmt.Sprintf("{id=%d %s %s%s st=%d raise=%d comp=%d dec=%v}", o.Id, o.Purchaser, o.Amount, o.Denom, o.Status, o.RaiseTime, o.CompletionTime, o.Decisions)
 }
+
+// canonAddr returns the canonical (lower-case) spelling of a bech32 account address; anything that
+// does not decode is returned as it is. bech32 has a second, all-upper-case spelling of every
+// address, and the statements speak about accounts, not spellings.
+func canonAddr(s string) string {
+	if a, err := sdk.AccAddressFromBech32(s); err == nil {
+		return a.String()
+	}
+	return s
+}
+
+// canonMsgs rewrites the party fields of the (decoded, never re-encoded) custom messages of a
+// transaction to their canonical spelling, so that models and oracles reason about accounts.
+func canonMsgs(msgs []sdk.Msg) {
+	for _, lf := range Flatten(msgs) {
+		switch x := lf.Msg.(type) {
+		case *enttypes.MsgUndPurchaseOrder:
+			x.Purchaser = canonAddr(x.Purchaser)
+		case *enttypes.MsgProcessUndPurchaseOrder:
+			x.Signer = canonAddr(x.Signer)
+		case *enttypes.MsgWhitelistAddress:
+			x.Signer, x.Address = canonAddr(x.Signer), canonAddr(x.Address)
+		case *wrkchaintypes.MsgRegisterWrkChain:
+			x.Owner = canonAddr(x.Owner)
+		case *wrkchaintypes.MsgRecordWrkChainBlock:
+			x.Owner = canonAddr(x.Owner)
+		case *wrkchaintypes.MsgPurchaseWrkChainStateStorage:
+			x.Owner = canonAddr(x.Owner)
+		case *beacontypes.MsgRegisterBeacon:
+			x.Owner = canonAddr(x.Owner)
+		case *beacontypes.MsgRecordBeaconTimestamp:
+			x.Owner = canonAddr(x.Owner)
+		case *beacontypes.MsgPurchaseBeaconStateStorage:
+			x.Owner = canonAddr(x.Owner)
+		case *streamtypes.MsgCreateStream:
+			x.Sender, x.Receiver = canonAddr(x.Sender), canonAddr(x.Receiver)
+		case *streamtypes.MsgClaimStream:
+			x.Sender, x.Receiver = canonAddr(x.Sender), canonAddr(x.Receiver)
+		case *streamtypes.MsgTopUpDeposit:
+			x.Sender, x.Receiver = canonAddr(x.Sender), canonAddr(x.Receiver)
+		case *streamtypes.MsgUpdateFlowRate:
+			x.Sender, x.Receiver = canonAddr(x.Sender), canonAddr(x.Receiver)
+		case *streamtypes.MsgCancelStream:
+			x.Sender, x.Receiver = canonAddr(x.Sender), canonAddr(x.Receiver)
+		}
+	}
+}
